@@ -236,9 +236,11 @@ def _special_points(chk, src, njit):
         params = f.params
         specials = []
         for n in ast.walk(f.node):
-            if isinstance(n, ast.Compare) and len(n.ops) == 1 and isinstance(n.ops[0], ast.Eq) and isinstance(n.left, ast.Name) and n.left.id in params \
-                    and isinstance(n.comparators[0], ast.Constant) and isinstance(n.comparators[0].value, (int, float)) and not isinstance(n.comparators[0].value, bool):
-                specials.append((n.left.id, Fraction(str(n.comparators[0].value))))
+            if isinstance(n, ast.Compare) and len(n.ops) == 1 and isinstance(n.ops[0], ast.Eq):
+                for nm, cst in ((n.left, n.comparators[0]), (n.comparators[0], n.left)):
+                    if isinstance(nm, ast.Name) and nm.id in params and isinstance(cst, ast.Constant) and isinstance(cst.value, (int, float)) \
+                            and not isinstance(cst.value, bool):
+                        specials.append((nm.id, Fraction(str(cst.value))))
         if not specials:
             continue
         n_f += 1
